@@ -68,6 +68,8 @@ Section MOVED.
   | MOri o o' : (exists k : Z, o' == o + a + inject_Z k * tau) -> - tau <= o' -> o' <= tau ->
                 moved (AOri o) (AOri o')
   | MItv J J' : (exists k : Z, lo J' == lo J + a + inject_Z k * tau /\ hi J' == hi J + a + inject_Z k * tau) ->
+                (* ... and the result is again a valid AngleInterval: ordered, shorter than tau, inside [-tau, tau] *)
+                lo J' <= hi J' -> hi J' - lo J' < tau -> - tau <= lo J' -> hi J' <= tau ->
                 moved (AItv J) (AItv J')
   | MVec v : moved (AVec v) (AVec (rot c s v))
   | MNum x : moved (ANum x) (ANum x).
@@ -99,6 +101,25 @@ Section MOVED.
   Proof.
     destruct o, o'; simpl; try contradiction; intro H; constructor; try constructor; assumption.
   Qed.
+
+  (* ---- validity of stored orientations: what the constructors / setters of the implementation assert *)
+  Fixpoint valid_shape (sh : shape) : bool :=
+    match sh with
+    | Rect _ _ _ o => valid_orientation tau o
+    | Circ _ _ => true
+    | Poly _ => true
+    | Group ms => forallb valid_shape ms
+    end.
+  Definition valid_itv (J : itv) : bool :=
+    Qle_bool (lo J) (hi J) && Qlt_bool (hi J - lo J) tau && valid_orientation tau (lo J) && valid_orientation tau (hi J).
+  Definition valid_state (st : state) : bool :=
+    match s_pos st with Some (PRegion sh) => valid_shape sh | _ => true end &&
+    match s_ori st with Some (OExact o) => valid_orientation tau o | Some (OItv J) => valid_itv J | None => true end.
+
+  Lemma valid_bounds x : valid_orientation tau x = true -> - tau <= x /\ x <= tau.
+  Proof. unfold valid_orientation. rewrite andb_true_iff, !Qle_bool_iff. tauto. Qed.
+  Lemma valid_of_bounds x : - tau <= x -> x <= tau -> valid_orientation tau x = true.
+  Proof. unfold valid_orientation. rewrite andb_true_iff, !Qle_bool_iff. tauto. Qed.
 
   Lemma shift_orient_spec o o' : shift_orient tau fuel a o = Ok o' -> moved (AOri o) (AOri o').
   Proof.
@@ -158,9 +179,11 @@ Section MOVED.
     unfold shift_itv, aadd, amk.
     destruct (normalise tau fuel (lo J + a) (hi J + a)) as [[a1 b1]|] eqn:E; [|discriminate].
     destruct (normalise_spec tau _ _ _ _ _ E) as [k [A B]].
-    destruct (Qlt_bool (b1 - a1) tau && valid_orientation tau a1 && valid_orientation tau b1); [|discriminate].
-    intro H. apply mk_wf in H. destruct H as [_ [El Eh]].
-    constructor. exists k. rewrite El, Eh. split; assumption.
+    destruct (Qlt_bool (b1 - a1) tau && valid_orientation tau a1 && valid_orientation tau b1) eqn:V; [|discriminate].
+    intro H. apply mk_wf in H. destruct H as [W [El Eh]]. unfold WF in W.
+    apply andb_true_iff in V. destruct V as [V Vb]. apply andb_true_iff in V. destruct V as [Vl Va].
+    apply Qlt_bool_iff in Vl. apply valid_bounds in Va, Vb. rewrite El, Eh in W.
+    constructor; rewrite ?El, ?Eh; try tauto. exists k. split; assumption.
   Qed.
 
   Lemma tr_state_moved st st' : tr_state tau fuel t a c s st = Ok st' ->
@@ -193,25 +216,52 @@ Section MOVED.
     inversion H; subst. simpl. auto.
   Qed.
 
-  (* ------------------------------------------------------------------ totality on valid arguments *)
-  Fixpoint valid_shape (sh : shape) : bool :=
-    match sh with
-    | Rect _ _ _ o => valid_orientation tau o
-    | Circ _ _ => true
-    | Poly _ => true
-    | Group ms => forallb valid_shape ms
-    end.
-  Definition valid_itv (J : itv) : bool :=
-    Qle_bool (lo J) (hi J) && Qlt_bool (hi J - lo J) tau && valid_orientation tau (lo J) && valid_orientation tau (hi J).
-  Definition valid_state (st : state) : bool :=
-    match s_pos st with Some (PRegion sh) => valid_shape sh | _ => true end &&
-    match s_ori st with Some (OExact o) => valid_orientation tau o | Some (OItv J) => valid_itv J | None => true end.
+  (* ------------------------------------------------------------------ the result is a valid object again
+     (orientations inside [-tau, tau], orientation intervals ordered / shorter than tau / inside [-tau, tau]),
+     so a transformed object can be transformed again *)
+  Lemma Forall2_forallb {A B} (v : B -> bool) (l : list A) l' : Forall2 (fun _ y => v y = true) l l' -> forallb v l' = true.
+  Proof. induction 1; simpl; [reflexivity|]. rewrite H, IHForall2. reflexivity. Qed.
 
+  Lemma tr_shape_valid : forall sh sh', tr_shape tau fuel t a c s sh = Ok sh' -> valid_shape sh' = true.
+  Proof.
+    induction sh as [l w ctr o|r ctr|vs|ms IH] using shape_ind'; intros sh' H.
+    - simpl in H. destruct (valid_angle tau a); [|discriminate].
+      apply bind_ok in H. destruct H as [o' [Eo H]].
+      destruct (valid_orientation tau o') eqn:Vo; [|discriminate]. inversion H; subst. exact Vo.
+    - simpl in H. inversion H; subst. reflexivity.
+    - simpl in H. destruct (valid_angle tau a); [|discriminate]. inversion H; subst. reflexivity.
+    - rewrite tr_group in H. destruct (valid_angle tau a); [|discriminate].
+      apply bind_ok in H. destruct H as [ms' [E H]]. inversion H; subst.
+      pose proof (mapM_Forall2 _ (fun _ y => valid_shape y = true) ms ms' IH E) as F.
+      simpl. apply (Forall2_forallb _ _ _ F).
+  Qed.
+
+  Lemma shift_itv_valid J J' : shift_itv tau fuel a J = Ok J' -> valid_itv J' = true.
+  Proof.
+    intro H. apply shift_itv_spec in H. inversion H; subst.
+    unfold valid_itv. rewrite !andb_true_iff, Qle_bool_iff, Qlt_bool_iff. repeat split; try assumption.
+    - apply valid_of_bounds; lra.
+    - apply valid_of_bounds; lra.
+  Qed.
+
+  Lemma tr_state_valid st st' : tr_state tau fuel t a c s st = Ok st' -> valid_state st' = true.
+  Proof.
+    unfold tr_state. destruct (valid_angle tau a); [|discriminate]. intro H.
+    apply bind_ok in H. destruct H as [p' [Ep H]]. apply bind_ok in H. destruct H as [o' [Eo H]].
+    inversion H; subst; clear H. unfold valid_state; simpl. apply andb_true_iff. split.
+    - apply optM_ok in Ep. destruct (s_pos st) as [p|], p' as [q|]; try contradiction; auto.
+      destruct p as [pp|sh]; simpl in Ep.
+      + inversion Ep; subst. reflexivity.
+      + apply bind_ok in Ep. destruct Ep as [sh' [E H]]. inversion H; subst. apply (tr_shape_valid _ _ E).
+    - apply optM_ok in Eo. destruct (s_ori st) as [o|], o' as [q|]; try contradiction; auto.
+      destruct o as [x|J]; simpl in Eo; apply bind_ok in Eo; destruct Eo as [y [E H]]; inversion H; subst.
+      + apply shift_orient_spec in E. inversion E; subst. apply valid_of_bounds; assumption.
+      + apply (shift_itv_valid _ _ E).
+  Qed.
+
+  (* ------------------------------------------------------------------ totality on valid arguments *)
   Hypothesis fuel_ok : (3 <= fuel)%nat.
   Hypothesis angle_ok : valid_angle tau a = true.
-
-  Lemma valid_bounds x : valid_orientation tau x = true -> - tau <= x /\ x <= tau.
-  Proof. unfold valid_orientation. rewrite andb_true_iff, !Qle_bool_iff. tauto. Qed.
 
   Lemma shift_orient_total o : valid_orientation tau o = true -> exists o', shift_orient tau fuel a o = Ok o'.
   Proof.
@@ -283,3 +333,96 @@ Section MOVED.
     destruct Hp as [p' Ep], Ho as [o' Eo]. rewrite Ep, Eo. simpl. eexists; reflexivity.
   Qed.
 End MOVED.
+
+(* ---------------------------------------------------------------------- two motions in a row *)
+(* a transformed state can be transformed again (e.g. to undo the motion): no level raises *)
+Lemma tr_shape_chain tau (tau_pos : 0 < tau) fuel t1 a1 c1 s1 t2 a2 c2 s2 sh sh' :
+  (3 <= fuel)%nat -> valid_angle tau a2 = true -> tr_shape tau fuel t1 a1 c1 s1 sh = Ok sh' ->
+  exists sh'', tr_shape tau fuel t2 a2 c2 s2 sh' = Ok sh''.
+Proof.
+  intros F V H. apply (tr_shape_total tau tau_pos fuel t2 a2 c2 s2 F V).
+  apply (tr_shape_valid tau fuel t1 a1 c1 s1 sh sh' H).
+Qed.
+Lemma tr_state_chain tau (tau_pos : 0 < tau) fuel t1 a1 c1 s1 t2 a2 c2 s2 st st' :
+  (3 <= fuel)%nat -> valid_angle tau a2 = true -> tr_state tau fuel t1 a1 c1 s1 st = Ok st' ->
+  exists st'', tr_state tau fuel t2 a2 c2 s2 st' = Ok st''.
+Proof.
+  intros F V H. apply (tr_state_total tau tau_pos fuel t2 a2 c2 s2 F V).
+  apply (tr_state_valid tau tau_pos fuel t1 a1 c1 s1 st st' H).
+Qed.
+
+(* what an orientation interval becomes: both ends shifted by a + k*tau with one k, and the result is again an
+   AngleInterval of the same length inside [-tau, tau] *)
+Lemma shift_itv_full tau (tau_pos : 0 < tau) fuel a J J' : shift_itv tau fuel a J = Ok J' ->
+  (exists k : Z, lo J' == lo J + a + inject_Z k * tau /\ hi J' == hi J + a + inject_Z k * tau) /\
+  hi J' - lo J' == hi J - lo J /\ - tau <= lo J' /\ hi J' <= tau.
+Proof.
+  intro H. apply (shift_itv_spec tau fuel (0, 0) a 0 0) in H. inversion H as [| |J0 J1 [k [A B]] W L Lo Hi| |]; subst.
+  split; [exists k; split; assumption|]. split; [lra|]. split; assumption.
+Qed.
+
+Section COMPOSE.
+  Variable tau : Q.
+  Variables t1 t2 : pt.
+  Variables a1 c1 s1 a2 c2 s2 : Q.
+
+  (* the angle-addition formulas: the coefficient pair of the rotation by a1 + a2 *)
+  Definition c12 : Q := c1 * c2 - s1 * s2.
+  Definition s12 : Q := s1 * c2 + c1 * s2.
+
+  Lemma compose_closed_form p :
+    pt_eq (move t2 a2 c2 s2 (move t1 a1 c1 s1 p)) (padd (T c12 s12 t1 p) (rot c2 s2 t2)).
+  Proof.
+    destruct p as [x y], t1 as [ux uy], t2 as [vx vy].
+    unfold pt_eq, move, TM, mapply, translation_rotation_matrix, coef_tr, mmul, rotation_matrix, translation_matrix, T,
+      rot, padd, c12, s12, px, py; simpl. split; ring.
+  Qed.
+
+  (* with c1^2 + s1^2 = 1 the composition is the single motion (t1 + R(-a1) t2, a1 + a2) *)
+  Lemma compose_is_motion p : c1 * c1 + s1 * s1 == 1 ->
+    pt_eq (move t2 a2 c2 s2 (move t1 a1 c1 s1 p)) (T c12 s12 (padd t1 (rot c1 (- s1) t2)) p).
+  Proof.
+    intro H. destruct p as [x y], t1 as [ux uy], t2 as [vx vy].
+    unfold pt_eq, move, TM, mapply, translation_rotation_matrix, coef_tr, mmul, rotation_matrix, translation_matrix, T,
+      rot, padd, c12, s12, px, py; simpl. split.
+    - transitivity (c12 * (x + ux) - s12 * (y + uy) + (c1 * c1 + s1 * s1) * (c2 * vx - s2 * vy));
+        [rewrite H; unfold c12, s12; ring | unfold c12, s12; ring].
+    - transitivity (s12 * (x + ux) + c12 * (y + uy) + (c1 * c1 + s1 * s1) * (s2 * vx + c2 * vy));
+        [rewrite H; unfold c12, s12; ring | unfold c12, s12; ring].
+  Qed.
+
+  Lemma compose_coefficients : c12 * c12 + s12 * s12 == (c1 * c1 + s1 * s1) * (c2 * c2 + s2 * s2).
+  Proof. unfold c12, s12. ring. Qed.
+
+  (* a stored value after two motions, related to the value before the first *)
+  Inductive moved2 : atom -> atom -> Prop :=
+  | M2Pt p q : pt_eq q (padd (T c12 s12 t1 p) (rot c2 s2 t2)) -> moved2 (APt p) (APt q)
+  | M2Ori o o' : (exists k : Z, o' == o + (a1 + a2) + inject_Z k * tau) -> - tau <= o' -> o' <= tau ->
+                 moved2 (AOri o) (AOri o')
+  | M2Itv J J' : (exists k : Z, lo J' == lo J + (a1 + a2) + inject_Z k * tau /\
+                                hi J' == hi J + (a1 + a2) + inject_Z k * tau) ->
+                 lo J' <= hi J' -> hi J' - lo J' < tau -> - tau <= lo J' -> hi J' <= tau ->
+                 moved2 (AItv J) (AItv J')
+  | M2Vec v w : pt_eq w (rot c12 s12 v) -> moved2 (AVec v) (AVec w)
+  | M2Num x : moved2 (ANum x) (ANum x).
+
+  Lemma moved_compose x y z : moved tau t1 a1 c1 s1 x y -> moved tau t2 a2 c2 s2 y z -> moved2 x z.
+  Proof.
+    intros H1 H2. destruct H1 as [p|o o' [k E] Lo Hi|J J' [k [El Eh]] W L Lo Hi|v|n]; inversion H2; subst.
+    - constructor. apply compose_closed_form.
+    - match goal with K : exists _, _ |- _ => destruct K as [k2 E2] end.
+      constructor; try assumption. exists (k + k2)%Z. rewrite inject_Z_plus. rewrite E2, E. ring.
+    - match goal with K : exists _, _ |- _ => destruct K as [k2 [El2 Eh2]] end.
+      constructor; try assumption. exists (k + k2)%Z. rewrite inject_Z_plus. split; [rewrite El2, El | rewrite Eh2, Eh]; ring.
+    - constructor. destruct v as [x y]. unfold pt_eq, rot, c12, s12, px, py; simpl. split; ring.
+    - constructor.
+  Qed.
+
+  Lemma movedl_compose : forall l l' l'', movedl tau t1 a1 c1 s1 l l' -> movedl tau t2 a2 c2 s2 l' l'' ->
+    Forall2 moved2 l l''.
+  Proof.
+    induction l as [|x r IH]; intros l' l'' H1 H2; inversion H1; subst; inversion H2; subst; constructor.
+    - eapply moved_compose; eassumption.
+    - eapply IH; eassumption.
+  Qed.
+End COMPOSE.
